@@ -102,7 +102,7 @@ def run(pid, tier):
             raise core.MachineryError(f"no generated samples for {c['name']}")
         recs += seqtest.code_records(c, dfs_order(ss), depth_of(c), f"c{ci}")
     # beyond the exhaustive bound: random long samples on a finer grid
-    nwalk, length = (6, 40) if tier == "quick" else (40, 200)
+    nwalk, length = (6, 40) if tier == "quick" else (10, 100)
     for ci, c in enumerate(cfgs):
         cc = dict(c)
         if cc["N"]:
